@@ -85,6 +85,8 @@ def scalar_poly(v):
 def make_vec(interp, poly, length, like):
     """Vector value from a polynomial; point-wise view derived from the bases."""
     ctx = interp.ctx
+    if not hasattr(ctx, "vec_bases"):
+        ctx.vec_bases = {}
     bases = ctx.vec_bases
 
     def at(k):
@@ -114,6 +116,8 @@ def sum_symbol(interp, mono):
         ctx.vec_sums = {}
     if mono in ctx.vec_sums:
         return ctx.vec_sums[mono]
+    if not hasattr(ctx, "vec_bases"):
+        ctx.vec_bases = {}
     bases = ctx.vec_bases
     if mono == ():
         raise Unsupported("sum of the constant monomial is the length")
@@ -167,7 +171,7 @@ def vec_sum(interp, v):
 
 def _as_poly(interp, x):
     if isinstance(x, VList):
-        if x.kind != "ndarray" and not interp.spec_mode:
+        if x.kind not in ("ndarray", "Series") and not interp.spec_mode:
             return None
         if not isinstance(x.content, SymSeq):
             return None
@@ -247,7 +251,7 @@ _poly_binop = vec_binop
 
 
 def vec_binop2(interp, opn, a, b, node):
-    is_vec = lambda x: isinstance(x, VList) and (x.kind == "ndarray" or interp.spec_mode) and isinstance(x.content, SymSeq) \
+    is_vec = lambda x: isinstance(x, VList) and (x.kind in ("ndarray", "Series") or interp.spec_mode) and isinstance(x.content, SymSeq) \
         and isinstance(getattr(x.content, "elem_kind", None), (T_IntT, T_RealT))
     if not (is_vec(a) or is_vec(b)):
         return None
